@@ -29,7 +29,8 @@ P("C02",
              "are pushed through rain's parser, allocator, piece mapper, block calculator, reader/writer and verifier and every result is "
              "compared with an independent flat-byte-array model in both directions (nothing missing, nothing extra). Exploration is the right level: "
              "the functions are pure and cheap, the input space (file vectors x piece lengths) is unbounded, and the defects live at coincidences "
-             "of boundaries that a biased generator reaches quickly.",
+             "of boundaries that a biased generator reaches quickly. The creation clause is decided by c02.create: generated directory trees are written to disk, turned into a torrent by "
+             "the client's own creation code and verified both independently (hash the files in the listed order) and with the client's allocator + verifier.",
   level_note="Trusted: " + MODEL_TRUST + "; the in-memory storage double. "
              "Bounds: total <= 1 MiB, <= 256 pieces, <= 8 files per layout. No absence claim beyond the explored cases.",
   technique="property-based testing (rapid) against a reference model; metamorphic byte-flip on the verifier",
@@ -54,7 +55,8 @@ P("C02",
 
 P("C03",
   level_text="Bounded random exploration: generated (layout, read-cache block size, cache capacity, TTL, request history) cases drive the cached "
-             "piece reader that backs every piece message; each returned buffer is compared with the flat model F and a short success is a failure.",
+             "piece reader that backs every piece message; each returned buffer is compared with the flat model F and a short success is a failure. The same reader under 2-6 concurrent "
+             "readers sharing a cache of 1-4 blocks (c03.concurrent), and a real seeding session answering generated valid and invalid requests of scripted leechers (c03.serve).",
   level_note="Trusted: " + MODEL_TRUST + "; for the session-level unit the scripted leecher and its reference codec. Each session case runs in a child process (crash = violation with stack).",
   technique="property-based testing (rapid) with a reference model (flat byte array)",
   rule="reads (piece, offset, length<=16 KiB) through cachedpiece.ReadAt over generated layouts, cache block sizes 1..200000 and capacities "
@@ -78,7 +80,9 @@ P("C03",
 
 P("C06",
   level_text="Bounded random exploration of adversarial bencoded info dictionaries (grammar-based mutation of valid layouts) through metainfo.New/NewInfo; "
-             "an accepted description must satisfy the well-formedness predicate and piece construction must terminate under a watchdog with bounded allocation.",
+             "an accepted description must satisfy the well-formedness predicate and piece construction must terminate under a watchdog with bounded allocation. "
+             "The same inputs are handed to a real Session through its four doors (.torrent, URL body, metadata from a peer for a magnet link, resume record) with generated size and "
+             "piece-count limits and then started (c06.session).",
   level_note="Trusted: " + MODEL_TRUST + ". A hang is detected by a 20 s watchdog (the case is saved and the shard exits at once); "
              "allocation is measured with runtime.MemStats.TotalAlloc around the parser call.",
   technique="property-based testing (rapid): grammar mutation of valid inputs + validity predicate + watchdog",
@@ -144,7 +148,8 @@ P("C11",
   level_text="Bounded random exploration: generated sequences of every message kind the client can emit (32-bit field values, bitfields and extension payloads up to 8 KiB, "
              "metadata pieces up to 16 KiB, PEX lists) go through the real peer writer onto an in-memory connection; the bytes are compared frame by frame with an "
              "independent reference encoder (extension dictionaries: canonical bencode + field equality), then fed to the real peer reader under generated fragmentation "
-             "and the delivered messages must equal the sent ones. The upload counter is compared with the payload bytes the remote received, also under an injected write failure.",
+             "and the delivered messages must equal the sent ones. The upload counter is compared with the payload bytes the remote received, also under an injected write failure. c11.slow adds time: a block that trickles in while the reader's "
+             "piece timeout expires repeatedly must still be delivered intact, with the messages after it.",
   level_note="Trusted: harness/refwire and harness/model bencode (written from the BEPs), harness/chunkconn. Handshake bytes are checked by the C12 units (btconn).",
   technique="property-based testing (rapid): differential against an independent reference codec + round trip through the real reader",
   rule="1..12 messages per case, read-size schedules incl. 1-byte reads, optional write fault at a generated byte offset; non-trivial = >=3 kinds and "
@@ -190,7 +195,8 @@ P("C18",
              "a model: documented filters (port 0, own loopback address, own IP together with the own listening port, blocked IP), cap, per-source counts, pops in non-increasing BEP 40 priority (independent "
              "implementation checked against the BEP's vectors), evictions oldest batch first.",
   level_note="Trusted: the harness model and its BEP 40 implementation. Which member of a partially evicted batch survives is left free (not specified); a priority "
-             "collision with such a batch makes the model count ambiguous and the case is counted inconclusive. The 'never dials ...' clauses over a live session are decided by the session unit when listed.",
+             "collision with such a batch makes the model count ambiguous and the case is counted inconclusive. The 'never dials, accepts or announces to ...' clauses are decided by c18.session on a live session: "
+             "every blocked or banned address has a listener or a recording tracker on it, every unblocked twin must be contacted.",
   technique="property-based testing (rapid): reference model (linear scan) and model-based stateful testing of the address queue",
   rule="(a) 1..3 reloads x 0..25 lines x 1..12 queries; non-trivial = list in force has >=2 rules. (b) 1..25 ops, cap 1..10; non-trivial = history exercises a filter, an eviction or a priority collision",
   assumptions=["the sandbox has no public interface address, so the 'own external interface address' filter is inert"],
@@ -210,7 +216,9 @@ P("C18",
 P("C15",
   level_text="Bounded random exploration: torrents with generated identity (info-hash and peer id of arbitrary bytes incl. bytes that need escaping and zeros in the last four "
              "positions, ports, 63-bit counters, every event) are announced through the real HTTP and UDP tracker clients to scripted trackers that decode the request with "
-             "their own code; every field must equal the torrent's, and the peer id must be the same 20 bytes the client presents to peers.",
+             "their own code; every field must equal the torrent's, and the peer id must be the same 20 bytes the client presents to peers. "
+             "c15.discipline drives the periodic announcer against stub trackers with generated reply sequences (event order, spacing); c15.session judges every announce of a real "
+             "session (left / counters / identity / stopped only after an accepted announce).",
   level_note="Trusted: harness/strk (own HTTP request-line/percent decoder, own BEP 15 decoder). The 'key' parameter is recorded in evidence, not asserted. "
              "Timers are real: spacing is judged with a 60 ms tolerance on the harness's own clock readings at the stub tracker. 'stopped only to trackers that accepted an announce' is decided by the session-level unit c15.session.",
   technique="property-based testing (rapid): round trip through an independent decoder on the far side of a real socket",
@@ -277,8 +285,8 @@ P("C13",
 P("C14",
   level_text="Bounded random exploration of the resume-record clause: histories of full writes, partial updates (info, bitfield, started flag, stop-after-* handling, "
              "complete-command flag), reads and close/reopen of a real bbolt file, for several torrent ids, compared field by field with a model; every field value is generated "
-             "(arbitrary bytes for hashes/info/bitfield/name, 63-bit counters, nanosecond durations, time zones, every flag, versions). The registry/port clauses are decided by the "
-             "session-level unit when listed.",
+             "(arbitrary bytes for hashes/info/bitfield/name, 63-bit counters, nanosecond durations, time zones, every flag, versions). The registry, port, restart and compaction clauses are decided by c14.registry on a real Session "
+             "(histories incl. failing and concurrent adds, port ranges of 2-5 ports, the database read with the harness's own bbolt handle at every close).",
   level_note="Trusted: the model. Times are compared as instants at the stored one-second resolution; nil and empty lists are identified. "
              "Open finding C14-invalid-utf8-in-string-lists is excluded by construction (strings in the three JSON-encoded lists are drawn valid UTF-8) and replayed from its pinned reproducer.",
   technique="property-based testing (rapid): model-based stateful testing of the resume store (write/partial update/reopen/read)",
@@ -297,7 +305,8 @@ P("C14",
   ])
 
 P("C17",
-  level_text="Bounded random exploration at component level: (a) the resource manager under generated request / release / cancel / stats histories over several keys with "
+  level_text="Bounded random exploration at component level and, for the limits that only exist in a running client, from outside a real session (c17.session: upload queue, "
+             "piece memory, accepted / dialed connections, address list, upload rate, web-seed caps, outstanding requests). Component level: (a) the resource manager under generated request / release / cancel / stats histories over several keys with "
              "limits from 1 unit, against a counting model: never more than the limit reserved, what the manager reports equals what callers hold whenever it is quiet, a "
              "reservation granted after its cancellation is accounted for, and everything released brings it back to zero (its own panics on over-release/over-grant kill the shard "
              "and are reported with the journaled case); (b) the read cache under get / clear / expiry histories with value sizes around the capacity: size within [0, max], "
@@ -405,7 +414,8 @@ P("C19",
              "private peer-id prefix, client version and user agent are used; a magnet whose metadata has private=1 is refused with an error and writes nothing. The control must show the same channels firing, "
              "otherwise the case is inconclusive.",
   level_note="Trusted: " + SESSION_TRUST + "; nictuku/dht querying its configured routers while its routing table is empty (read, and confirmed by the control run of every case). "
-             "Which odd encodings count as private is taken from the client's own Stats().Private (asserted only for the unambiguous BEP 27 cases: 1 is private, absent is public). Observation window 2.5 s per run.",
+             "Which encodings count as private: a present key marks the torrent private unless its value is the integer 0, the empty string or the string 0 (odd types included; asserted). "
+             "'never fed from the DHT' is decided by c19.dhtfeed with a scripted DHT node that answers get_peers (the asking is done by a magnet link for the same info-hash in the same session). Observation window 2.5 s per run.",
   technique="property-based testing (rapid) at system level: metamorphic pair (flip only the private flag) with scripted peers, tracker and DHT stub",
   rule="encoding x DHT/PEX settings x torrent-file or magnet x PEX before/after metadata x port message; non-trivial = the torrent is classified private (or a private magnet is refused); distinct = distinct case",
   assumptions=["both runs of a case execute in one child process, one after the other"],
